@@ -112,6 +112,8 @@ def run_session(ctx, driver, files, spec, timeout=60.0):
     if k != "black":
         # injected formatter states count as faults / stubs that really ran (one per session they were active in)
         ctx.fired("formatter_state:" + (k if k != "cmd" else "cmd:" + spec["fmt"].get("stub", "black")))
+    if (spec.get("fmt") or {}).get("exit1_partial_at"):
+        ctx.fired("formatter_fault:exit1-after-partial-output")
     if (spec.get("fmt") or {}).get("locale"):
         ctx.fired("env_seam:locale-encoding-not-utf8")
     if spec.get("env"):
